@@ -1,5 +1,6 @@
 SPECIFICATION Spec
-CONSTANTS N = 3
+CONSTANTS DataPlane = "off"
+          N = 3
           MaxTime = 8
           Silent = 0
           FaultKind = "silent"
